@@ -425,6 +425,22 @@ func c06InvalidShares(run *mon.Run, r *rand.Rand, g *thrGroup) {
 	}
 }
 
+// posClass names a list position relative to the first t+1 entries.
+func posClass(pos, t, L int) string {
+	switch {
+	case pos == 0:
+		return "first"
+	case pos < t:
+		return "head"
+	case pos == t:
+		return "t"
+	case pos == L-1:
+		return "last-surplus"
+	default:
+		return "surplus"
+	}
+}
+
 func c06Errors(run *mon.Run, r *rand.Rand, g *thrGroup) {
 	n, t := g.n, g.t
 	signers := r.Perm(n)[:t+1]
@@ -450,6 +466,46 @@ func c06Errors(run *mon.Run, r *rand.Rand, g *thrGroup) {
 		oor[t] = bad
 		_, err = crypto.BLSReconstructThresholdSignature(n, t, shares, oor)
 		check("out-of-range", err, crypto.IsInvalidInputsError)
+	}
+	// the faulty entry at every position of lists with 0..3 surplus shares (head, position t, and the
+	// tail beyond the first t+1 entries); the other entries are valid and distinct
+	for extra := 0; extra <= 3 && t+1+extra <= n; extra++ {
+		L := t + 1 + extra
+		perm := r.Perm(n)[:L]
+		shs := make([]crypto.Signature, L)
+		for i, s := range perm {
+			shs[i] = g.share[s]
+		}
+		for pos := 0; pos < L; pos++ {
+			for _, bad := range []int{-1, n, 256 + perm[(pos+1)%L], -256 + perm[(pos+1)%L]} {
+				oor := append([]int{}, perm...)
+				oor[pos] = bad
+				_, err = crypto.BLSReconstructThresholdSignature(n, t, shs, oor)
+				check(fmt.Sprintf("out-of-range-at-%s", posClass(pos, t, L)), err, crypto.IsInvalidInputsError)
+			}
+			for other := 0; other < L; other++ {
+				if other == pos {
+					continue
+				}
+				d := append([]int{}, perm...)
+				d[pos] = d[other]
+				ds := append([]crypto.Signature{}, shs...)
+				ds[pos] = ds[other]
+				_, err = crypto.BLSReconstructThresholdSignature(n, t, ds, d)
+				check(fmt.Sprintf("duplicate-at-%s-of-%s", posClass(pos, t, L), posClass(other, t, L)), err, crypto.IsDuplicatedSignerError)
+			}
+			// a share of the wrong length anywhere in the list is an error, never a signature
+			ws := append([]crypto.Signature{}, shs...)
+			ws[pos] = ws[pos][:47]
+			var sig crypto.Signature
+			sig, err = crypto.BLSReconstructThresholdSignature(n, t, ws, perm)
+			run.Eval(1)
+			if err == nil && sig != nil {
+				if !bytes.Equal(sig, g.E) {
+					run.Violate("C06:wrong-length-share-gives-invalid-signature:"+posClass(pos, t, L), "a 47-byte share was accepted and the returned bytes are not the group signature", map[string]any{"n": n, "t": t, "pos": pos})
+				}
+			}
+		}
 	}
 	_, err = crypto.BLSReconstructThresholdSignature(n, t, shares, signers[:t])
 	check("length-mismatch", err, crypto.IsInvalidInputsError)
